@@ -277,7 +277,8 @@ def r4_5(ctx):
         for g in ctx.repo.all_funcs():
             if g.cls != cls or g.name in ("__init__", "read_json_data") or getattr(g, "parent", None) is not None:
                 continue
-            if not any(ef.kind == "mut" and ef.attr == coll and ef.op in ("append", "insert", "extend") and ef.cls in (cls, None) for ef in ctx.eff.of(g)):
+            pieces = [g] + [h for h in ctx.eff.reachable([g], precise=True) if h is not g and is_private_helper(h)]   # (the method and the private pieces it is written with)
+            if not any(ef.kind == "mut" and ef.attr == coll and ef.op in ("append", "insert", "extend") and ef.cls in (cls, None) for h in pieces for ef in ctx.eff.of(h)):
                 continue
             I = mk_interp(ctx)
             for st, ex in I.run_function(g, heap={("self", "ID"): Unk("self.ID", ("prim", "str"))}):
